@@ -40,6 +40,12 @@ CLAUSES = {
                          "grid points and all components",
     "B.hier.collocation": "HierarchizationLSG(grid)(values, numPoints, grid) returns surpluses s with sum_j s_j prod_d phi_{j_d}(x_{i_d}) == v_i "
                           "(own tensor evaluation of the grid's basis objects), 1e-9",
+    "B.hist.reuse": "history: the same grid object given a sequence of different trees / areas (several of equal size, below and above the "
+                    "15-point QR threshold, there and back), one HierarchizationLSG operator shared by all grids of the run, and one Function "
+                    "object shared by all steps still satisfy identity, collocation and polynomial reproduction at every step (checked against "
+                    "the table / f.eval, not against earlier answers); a local grid re-pointed to an earlier area reproduces that area's table",
+    "B.hist.stable": "interpolate() called twice returns identical values; arrays returned earlier by interpolate() and the surpluses stored by "
+                     "an earlier integrate() (kept by reference) still equal the copies taken at that time after later integrate/interpolate calls",
     "B.lagrange.kronecker": "every Lagrange-type basis object is 1 (1e-12) at its own knot and 0 (exactly) at its other knots (modified "
                             "bases: at the other knots strictly inside the domain)",
     "B.poly.reproduction": "tensor polynomials with per-dimension degree q_d (see bound) are reproduced at arbitrary points of the "
@@ -167,8 +173,8 @@ def wclass(case):
     return c
 
 
-def build(case):
-    """returns (G, kind, lo, hi, coords per dim, interpolate callable, integrate callable)"""
+def build(case, G=None):
+    """returns (G, kind, lo, hi, integrate callable, interpolate callable); an existing grid object G is re-used (history cases)"""
     import numpy as np
     from sparseSpACE import Grid as GM
     from sparseSpACE.ComponentGridInfo import ComponentGridInfo
@@ -176,14 +182,16 @@ def build(case):
     a, b = [x[:d] for x in DOMAIN[case["domain"]]]
     if case["kind"] == "global":
         cls = GM.GlobalLagrangeGrid if case["family"] == "lagrange" else GM.GlobalBSplineGrid
-        G = cls(np.array(a), np.array(b), boundary=case["boundary"], modified_basis=case["modified"], p=p)
+        if G is None:
+            G = cls(np.array(a), np.array(b), boundary=case["boundary"], modified_basis=case["modified"], p=p)
         pts = [grid_from_levels(a[i], b[i], case["levels"][i]) for i in range(d)]
         G.set_grid([list(x) for x in pts], [list(l) for l in case["levels"]])
         lv = [max(l) for l in case["levels"]]
         cg = ComponentGridInfo(lv, 1)
         return (G, "global", a, b, lambda f: G.integrate(f, lv, a, b), lambda P: G.interpolate(P, cg))
     cls = GM.LagrangeGrid if case["family"] == "lagrange" else GM.BSplineGrid
-    G = cls(np.array(a), np.array(b), boundary=case["boundary"], p=p, modified_basis=case["modified"])
+    if G is None:
+        G = cls(np.array(a), np.array(b), boundary=case["boundary"], p=p, modified_basis=case["modified"])
     s, e, lv = list(case["start"]), list(case["end"]), list(case["levelvec"])
     G.setCurrentArea(s, e, lv)
     return (G, "local", s, e, lambda f: G.integrate(f, lv, s, e), lambda P: G.interpolate(P, s, e, lv))
@@ -197,11 +205,21 @@ def site_of(case, what):
     return SITE_LL1D if case["family"] == "lagrange" else SITE_LB1D
 
 
-def grid_case(ctx, case, seen_basis=None):
+def stored_surplus(G, kind, case, lo, hi):
+    if kind == "global":
+        return G.surplus_values[tuple(max(l) for l in case["levels"])]
+    return G.surplus_values[(tuple(lo), tuple(hi), tuple(case["levelvec"]))]
+
+
+def grid_case(ctx, case, seen_basis=None, hist=None):
+    """hist (history cases): {"G": grid object to re-use or None, "lsg": shared HierarchizationLSG or None, "f": shared Function or None,
+    "tag": suffix for witness classes, "kept": list collecting (reference, copy, label)}"""
     import numpy as np
     import sparseSpACE.Grid  # noqa: must be imported before Hierarchization (circular import in the library)
     from sparseSpACE.Hierarchization import HierarchizationLSG
-    wc = wclass(case)
+    hist = hist or {}
+    tag = hist.get("tag", "")
+    wc = wclass(case) + tag
     d, p = case["d"], case["p"]
     r = random.Random(case["seed"])
     built = None
@@ -209,46 +227,74 @@ def grid_case(ctx, case, seen_basis=None):
     pub_site = site_of(case, "build") if (case["kind"] == "local" and not case["boundary"]) else site_of(case, "interp")
     with ctx.guard("B.interp.returns", site_of(case, "build"), wc + "-raises"):
         with quiet():
-            built = build(case)
+            built = build(case, hist.get("G"))
     if built is None:
         return
     G, kind, lo, hi, integrate, interpolate = built
+    if "G" in hist:
+        hist["G"] = G
     pts = [tuple(float(c) for c in P) for P in G.getPoints()]
     if not pts:
         return
     nump = [int(x) for x in G.levelToNumPoints(case["levelvec"] if kind == "local" else [0] * d)]
     outlen = case["outlen"]
-    table = {P: [r.uniform(-1, 1) for _ in range(outlen)] for P in pts}
-    vmax = 1.0
+    if hist.get("f") is not None:  # one Function object shared by all steps / grids: its cache must stay equal to eval
+        fobj = hist["f"]
+        table = {P: [float(v) for v in fobj.eval(P)] for P in pts}
+    else:
+        fobj = None
+        table = {P: [r.uniform(-1, 1) for _ in range(outlen)] for P in pts}
+    vmax = max(1.0, max(abs(v) for row in table.values() for v in row))
+    clause_id = "B.hist.reuse" if tag else "B.interp.identity"
+    clause_col = "B.hist.reuse" if tag else "B.hier.collocation"
+    clause_poly = "B.hist.reuse" if tag else "B.poly.reproduction"
     # 1. public path: integrate (hierarchise) + interpolate at all grid points
     res = None
     with ctx.guard("B.interp.returns", pub_site, wc + "-raises"):
         with quiet():
-            integrate(table_function(table, outlen))
-            res = np.asarray(interpolate(list(pts)))
+            integrate(fobj if fobj is not None else table_function(table, outlen))
+            res = interpolate(list(pts))
+            res_again = np.array(interpolate(list(pts)), dtype=float)
     if res is None:
         return
+    kept = [(res, np.array(res, dtype=float), "interpolate() result")]
+    with ctx.guard("B.hist.stable", pub_site, wc + "/surplus-access-raises"):
+        sref = stored_surplus(G, kind, case, lo, hi)
+        kept.append((sref, np.array(sref, dtype=float), "surpluses of the first integrate()"))
+    res = np.asarray(res)
     if res is not None:
         ok = res.shape == (len(pts), outlen)
         err = max(abs(float(res[i][j]) - table[P][j]) for i, P in enumerate(pts) for j in range(outlen)) if ok else float("inf")
-        ctx.check("B.interp.identity", ok and err <= 1e-9 * (1 + vmax), site_of(case, "interp"), wc,
+        ctx.check(clause_id, ok and err <= 1e-9 * (1 + vmax), site_of(case, "interp"), wc,
                   "max |interpolate(x_i) - v_i| = %.3e over %d grid points (%s points per dimension)" % (err, len(pts), nump))
+        ctx.check("B.hist.stable", ok and np.array_equal(np.asarray(res, dtype=float), res_again), site_of(case, "interp"), wc + "/second-call",
+                  "interpolate() called twice on the same points differs by %.3e" % (float(np.max(np.abs(np.asarray(res, dtype=float) - res_again))) if ok else float("nan")))
     # 2. hierarchisation alone against an own tensor evaluation of the basis objects
     bases = [basis_list(G, kind, i) for i in range(d)]
     coords = [[float(x) for x in G.get_coordinates_dim(i)] for i in range(d)]
     if all(len(bases[i]) == len(coords[i]) == nump[i] for i in range(d)) and all(bf is not None for bl in bases for bf in bl):
         vals = np.array([[table[P][j] for P in pts] for j in range(outlen)], dtype=float)
         sur = None
+        sur_shared = None
         with ctx.guard("B.hier.collocation", SITE_HIER, wc + "-raises"):
             sur = np.asarray(HierarchizationLSG(G)(vals.copy(), nump, G))
+            if hist.get("lsg") is not None:  # an operator object that has served other grids before
+                sur_shared = np.asarray(hist["lsg"](vals.copy(), nump, G))
         if sur is not None:
             mats = [np.array([[bases[i][j](coords[i][k]) for j in range(nump[i])] for k in range(nump[i])]) for i in range(d)]
             rec = sur.reshape([outlen] + nump)
             for i in range(d):  # contract dimension i with the collocation matrix (row = point, column = basis)
                 rec = np.moveaxis(np.tensordot(mats[i], rec, axes=([1], [i + 1])), 0, i + 1)
             err = float(np.max(np.abs(rec.reshape(outlen, -1) - vals)))
-            ctx.check("B.hier.collocation", err <= 1e-9 * (1 + vmax), SITE_HIER, wc + ("-qr" if max(nump) >= 15 else ""),
+            ctx.check(clause_col, err <= 1e-9 * (1 + vmax), SITE_HIER, wc + ("-qr" if max(nump) >= 15 else ""),
                       "max collocation residual %.3e (%s points per dimension)" % (err, nump))
+            if sur_shared is not None:
+                rec = sur_shared.reshape([outlen] + nump)
+                for i in range(d):
+                    rec = np.moveaxis(np.tensordot(mats[i], rec, axes=([1], [i + 1])), 0, i + 1)
+                err = float(np.max(np.abs(rec.reshape(outlen, -1) - vals)))
+                ctx.check("B.hist.reuse", err <= 1e-9 * (1 + vmax), SITE_HIER, wclass(case) + "/shared-operator" + ("-qr" if max(nump) >= 15 else ""),
+                          "operator object shared between grids: max collocation residual %.3e (%s points per dimension)" % (err, nump))
     else:
         ctx.check("B.hier.collocation", False, site_of(case, "build"), wc + "-basis-missing",
                   "basis objects per dimension %s vs points %s" % ([len(x) for x in bases], nump))
@@ -270,8 +316,14 @@ def grid_case(ctx, case, seen_basis=None):
         if out is not None:
             fmax = max(abs(v) for row in ptab.values() for v in row)
             err = max(abs(float(out[i][j]) - poly_value(P, degs, lo, hi, j)) for i, P in enumerate(ev) for j in range(outlen))
-            ctx.check("B.poly.reproduction", err <= 1e-8 * (1 + fmax), site_of(case, "interp"), wc,
+            ctx.check(clause_poly, err <= 1e-8 * (1 + fmax), site_of(case, "interp"), wc + ("/poly" if tag else ""),
                       "degrees %s (p=%d, points %s): max error %.3e at %d points" % (degs, p, nump, err, len(ev)))
+    # report stability: what was handed out before the second integrate()/interpolate() must not have changed
+    changed = [label for ref, cp, label in kept if not np.array_equal(np.asarray(ref, dtype=float), cp)]
+    ctx.check("B.hist.stable", not changed, site_of(case, "interp"), wc + "/reported-earlier", "changed after later calls: %s" % changed)
+    if "earlier" in hist and kind == "local":
+        hist["earlier"][(tuple(lo), tuple(hi), tuple(case["levelvec"]))] = (list(lo), list(hi), list(case["levelvec"]),
+                                                                             list(degs) if case["boundary"] else None, outlen)
     # 4. basis objects
     for i in range(d):
         wl = weight_list(G, kind, i)
@@ -392,6 +444,94 @@ def raw_cases(ctx, quick):
                        "boundary": True, "modified": False, "d": 1, "seed": rng.randrange(10 ** 6)}
 
 
+def smooth_function(d, outlen, seed):
+    from sparseSpACE.Function import Function
+    r = random.Random(seed)
+    w = [[r.uniform(0.5, 2.5) for _ in range(d)] for _ in range(outlen)]
+
+    class Smooth(Function):
+        def output_length(self):
+            return outlen
+
+        def eval(self, x):
+            return [math.sin(sum(w[j][i] * x[i] for i in range(d)) + j) + 0.25 * x[0] * x[-1] for j in range(outlen)]
+    return Smooth()
+
+
+def graded_levels(depth_complete, side, extra):
+    """complete tree of the given depth plus `extra` nested points towards one end (same size for side L and R)"""
+    base = complete_levels(depth_complete)
+    chain = list(range(depth_complete + 1, depth_complete + extra + 1))
+    if side == "L":   # cell next to a: each new point halves the left-most cell; in-order: deepest first
+        return [0] + chain[::-1] + base[1:]
+    return base[:-1] + chain + [0]
+
+
+def sequence_case(ctx, case, seen=None):
+    """one grid object, many trees / areas"""
+    import sparseSpACE.Grid  # noqa
+    from sparseSpACE.Hierarchization import HierarchizationLSG
+    d = case["d"]
+    hist = {"G": None, "lsg": HierarchizationLSG(None), "tag": "/reused-grid", "earlier": {},
+            "f": smooth_function(d, case["outlen"], case["seed"]) if case["shared_function"] else None}
+    base = {k: case[k] for k in ("kind", "family", "p", "boundary", "modified", "d", "domain", "outlen")}
+    for n_step, step in enumerate(case["steps"]):
+        sc = dict(base, seed=case["seed"] + n_step, **step)
+        if not has_points(sc):
+            continue
+        grid_case(ctx, sc, seen, hist)
+        if hist["G"] is None:
+            return
+    if case["kind"] == "local" and hist["G"] is not None and case["boundary"]:
+        # what interpolate_points of the extend-split strategy does: go back to an earlier area and interpolate there; the last table
+        # integrated on every area was the polynomial one
+        import numpy as np
+        G = hist["G"]
+        wc = wclass(dict(base, whole=True)) + "/earlier-area"
+        for lo, hi, lv, degs, outlen in hist["earlier"].values():
+            if degs is None:
+                continue
+            out = None
+            with ctx.guard("B.hist.reuse", SITE_LI, wc + "-raises"):
+                with quiet():
+                    G.setCurrentArea(lo, hi, lv)
+                    pts = [tuple(float(c) for c in P) for P in G.getPoints()]
+                    out = np.asarray(G.interpolate(list(pts), lo, hi, lv))
+            if out is not None and len(pts):
+                err = max(abs(float(out[i][j]) - poly_value(P, degs, lo, hi, j)) for i, P in enumerate(pts) for j in range(outlen))
+                ctx.check("B.hist.reuse", err <= 1e-8 * 3, SITE_LI, wc,
+                          "area %s-%s level %s revisited after other areas: max error %.3e at its grid points" % (lo, hi, lv, err))
+
+
+def sequence_cases(ctx, quick):
+    rng = ctx.rng
+    nine = [graded_levels(2, "L", 4), graded_levels(2, "R", 4), complete_levels(3)]
+    seventeen = [complete_levels(4), graded_levels(3, "L", 8), graded_levels(3, "R", 8)]
+    assert all(len(x) == 9 for x in nine) and all(len(x) == 17 for x in seventeen)
+    tree_seq = nine + seventeen + [seventeen[0], nine[0]]
+    for family in ("lagrange", "bspline"):
+        for p in PS[family]:
+            for boundary, modified in FLAGS[family]:
+                g = {"kind": "global", "family": family, "p": p, "boundary": boundary, "modified": modified}
+                for shared in (True, False):
+                    yield dict(g, d=1, domain=rng.choice(("unit", "box")), outlen=2, shared_function=shared, seed=rng.randrange(10 ** 6),
+                               steps=[{"levels": [t]} for t in tree_seq])
+                if not quick or p in (1, 3):
+                    other = [[0, 2, 1, 0], [0, 1, 2, 0], [0, 1, 0]]
+                    yield dict(g, d=2, domain="box", outlen=1, shared_function=True, seed=rng.randrange(10 ** 6),
+                               steps=[{"levels": [t, other[i % 3]]} for i, t in enumerate(nine[:2] + seventeen + [seventeen[0]])])
+                if boundary:  # local classes without boundary are the known findings of the single-shot cases
+                    lc = {"kind": "local", "family": family, "p": p, "boundary": boundary, "modified": modified}
+                    areas = sub_areas(1, "box")
+                    steps = [{"start": areas[k % 4][0], "end": areas[k % 4][1], "whole": areas[k % 4][2], "levelvec": [l]}
+                             for k, l in enumerate((4, 4, 3, 4, 2, 4, 3))]
+                    yield dict(lc, d=1, domain="box", outlen=2, shared_function=False, seed=rng.randrange(10 ** 6), steps=steps)
+                    a2 = sub_areas(2, "box")
+                    steps2 = [{"start": a2[k % 4][0], "end": a2[k % 4][1], "whole": a2[k % 4][2], "levelvec": list(lv)}
+                              for k, lv in enumerate(((2, 1), (1, 2), (2, 1), (4, 0), (2, 1)))]
+                    yield dict(lc, d=2, domain="box", outlen=1, shared_function=False, seed=rng.randrange(10 ** 6), steps=steps2)
+
+
 # ----------------------------------------------------------------------------------------------------------------
 FLAGS = {"lagrange": [(True, False), (False, False)], "bspline": [(True, False), (False, False), (False, True)]}
 PS = {"lagrange": (1, 2, 3, 5), "bspline": (1, 3, 5)}
@@ -465,7 +605,7 @@ def local_cases(ctx, quick):
 
 def has_points(case):
     """a local grid without boundary points on an area that spans the whole domain at level 0 has no point at all"""
-    if case["kind"] != "local" or case["boundary"]:
+    if "steps" in case or case["kind"] != "local" or case["boundary"]:
         return True
     a, b = [x[:case["d"]] for x in DOMAIN[case["domain"]]]
     for i in range(case["d"]):
@@ -476,7 +616,7 @@ def has_points(case):
 
 
 def nontrivial(case):
-    if case["kind"] == "raw":
+    if case["kind"] == "raw" or "steps" in case:
         return True
     if case["kind"] == "global":
         return any(len(l) > 2 or case["boundary"] for l in case["levels"])
@@ -487,8 +627,12 @@ def run(ctx):
     quick = ctx.quick()
     seen = set()
     n = total = 0
+    import sparseSpACE.Grid  # noqa
+    from sparseSpACE.Hierarchization import HierarchizationLSG
+    shared = {"lsg": HierarchizationLSG(None)}  # one operator object serving every grid of the run
     for n_pass in range(1 if quick else 12):
         cases = [c for c in local_cases(ctx, quick) if has_points(c)] + list(global_cases(ctx, quick)) + list(raw_cases(ctx, quick))
+        cases += list(sequence_cases(ctx, quick))
         # low dimensions first so that an early stop still covers every class
         ctx.rng.shuffle(cases)
         cases.sort(key=lambda c: c["d"])
@@ -501,8 +645,10 @@ def run(ctx):
             ctx.case(case, nontrivial=nontrivial(case))
             if case["kind"] == "raw":
                 raw_case(ctx, case)
+            elif "steps" in case:
+                sequence_case(ctx, case, seen)
             else:
-                grid_case(ctx, case, seen)
+                grid_case(ctx, case, seen, shared)
             n += 1
         if stop or ctx.out_of_time(0.75):
             break
@@ -513,5 +659,7 @@ def run(ctx):
 def replay(ctx, case):
     if case["kind"] == "raw":
         raw_case(ctx, case)
+    elif "steps" in case:
+        sequence_case(ctx, case, None)
     else:
         grid_case(ctx, case, None)
